@@ -50,6 +50,21 @@ def fit_replay(fam):
             bad.append('an exception other than ValueError escaped')
         if any(o != out[0] for o in out[1:]):
             bad.append('the result depends on the state before fit')
+        # the smallest samples of the quantifier: two rows
+        from scipy import stats
+        for X2 in ([[0.1, 0.2], [0.9, 0.3]], [[0.2, 0.9], [0.3, 0.1]], [[0.4, 0.1], [0.4, 0.8]]):
+            X2 = np.array(X2)
+            want = stats.kendalltau(X2[:, 0], X2[:, 1])[0]
+            c = biv.native_copula(fam, None, None)
+            try:
+                c.fit(X2.copy())
+                if np.isnan(want) or abs(float(c.tau) - want) > 1e-12:
+                    bad.append('two rows %r: Kendall tau of the columns is %r, fit accepted them with tau = %r'
+                               % (X2.tolist(), want, float(c.tau)))
+            except ValueError:
+                pass
+            except Exception as e:
+                bad.append('two rows %r: %s' % (X2.tolist(), type(e).__name__))
         return {'confirmed': bool(bad), 'detail': '%s.fit on %d rows incl. (%r, %r): fresh model -> %r, model with prior '
                 '(s) %r -> %r; %s' % (fam, len(X), u, v, out[0], priors[1:], out[1:],
                                                       '; '.join(bad)), 'input': {'row': [u, v]}}
